@@ -19,10 +19,39 @@ CHECKS = {
  "C19": dict(engine="K", technique=K_TECH,
    text="Bounded model checking of the session-id codec path: SessionId::from(StreamId) is the identity on the raw id for every id < 2^62; the stream headers written by UniStreamHeader::WebTransportUni / BidiStreamHeader::WebTransportBidi are varint(0x54|0x41) ++ varint(CONNECT stream id) for every id; Frame::decode of 0x41 ++ varint(x) yields WebTransportStream(x) consuming exactly the header for every x, every varint form of x and of the type, and every truncation position (Incomplete, never a frame).",
    note="Not claimed: byte-exact hand-over of payload buffered behind the header (needs BufList<Bytes>, which CBMC cannot execute), the session object of h3-webtransport (Mutex, async), gating of WebTransport uni streams on the configuration. Instantiations: BufMut=&mut [u8], Buf=KBuf (contiguous slice reader, kani/src/kbuf.rs). " + K_TRUST, ref="DESIGN.md §5 C19"),
+ "C02": dict(engine="K", technique=K_TECH,
+   text="Bounded model checking of Frame::decode against an RFC 9114 section 7.1 reference segmenter and fixed-field grammar: every known frame type, the four HTTP/2-reserved types and six unknown/grease types (incl. 2^62-1), every varint form of type and length, declared payload lengths 0..3 (quick) / 0..8 (thorough), symbolic payload and two trailing bytes, every cut of the buffer from 'type complete' to frame+2: well-formed frames yield the expected variant and consume exactly header+L, unknown types are skipped in full, reserved types are refused, a payload longer or shorter than its fields is a frame error (never accepted, never Incomplete), Incomplete exactly while bytes are missing.",
+   note="Shapes (type/length forms, L, cut) are enumerated concretely, contents are symbolic. Not covered by K: buffers that end inside the TYPE varint (CBMC does not finish; one line of code, truncation verdict of the varint decoder is proved under C16), chunking across BufList/Cursor, FrameStream end-of-stream logic, PUSH_PROMISE/SETTINGS payloads with a symbolic varint form beyond 1 byte (first byte(s) concrete there). Instantiation Buf=KBuf (contiguous slice). " + K_TRUST, ref="DESIGN.md §5 C02"),
+ "C06": dict(engine="K", technique=K_TECH,
+   text="Panic/overflow/out-of-bounds freedom (Kani's built-in checks: arithmetic overflow, slice bounds, unwrap/expect/assert/unreachable, pointer validity) of every byte decoder h3 runs on peer-controlled input, on arbitrary bounded input: VarInt::decode (all 0..9-byte strings), Frame::decode (all C02 shapes), Settings::decode (all payloads of 0..3 bytes quick / ..5 thorough), prefix_int::decode (all 0..12-byte strings, all prefix sizes), Huffman decoding (all 0..1-byte strings quick / 2-byte thorough), decode_stateless (C11 shapes), Datagram::decode (all 0..9-byte strings), HeaderPrefix::get(0,0) on arbitrary fields, vas index translation on arbitrary indices, WebTransport stream header decode.",
+   note="Safety only; the liveness half of the property (no call pending forever) and the poll-level state machines are not covered by these harnesses. Inputs longer than the stated bounds are outside the claim (e.g. the u32 bit arithmetic of the Huffman reader overflows only for strings >= 512 MiB). " + K_TRUST, ref="DESIGN.md §5 C06"),
+ "C10": dict(engine="K", technique=K_TECH,
+   text="Receive side: decode_stateless with a SYMBOLIC size limit (all u64) on the C11 shapes (static rows, literal lines, name references, two-byte index forms): accepted iff the RFC 9114 section 4.2.2 size (sum of name+value+32, static rows with their Appendix A sizes) is <= limit, refused as HeaderTooLong otherwise, malformed input never reported as a size problem, reported mem_size equals the RFC size; the protocol default limit before SETTINGS is 2^62-1 (C13 harness).",
+   note="Send side (the comparison sites in send_request/send_response/send_trailers, the 431 answer) is not covered by K. Boundary values L-1, L, L+1 are inside each query because the limit is symbolic. " + K_TRUST, ref="DESIGN.md §5 C10"),
+ "C11": dict(engine="K", technique=K_TECH,
+   text="decode_stateless against an independent RFC 9204 model with its own copy of Appendix A: all 99 static rows (enumerated), literal lines with literal name (name 0..4, value 0..4 symbolic bytes), static name references (rows 0,1,14,15,17,98; one- and two-byte index forms), truncations of these lines, dynamic-table references of every kind, static indices 99/190/191, any one-byte Required Insert Count / Delta Base: accepted iff valid for a decoder without dynamic table, decoded fields equal the independent decoding.",
+   note="One decode costs CBMC about a minute, so one case per harness (10 quick, 58 thorough). Bytes that carry length or index bits are concrete per harness (a symbolic one sizes a heap allocation); string contents, the size limit and prefix bytes are symbolic. Not covered: the encode side (always Huffman-codes literals; the Huffman encoder cannot be executed by CBMC), Huffman-coded strings inside field lines beyond one harness, 'all strings up to 3 bytes' as a single query. " + K_TRUST, ref="DESIGN.md §5 C11"),
+ "C13": dict(engine="K", technique=K_TECH,
+   text="Config -> SETTINGS for ALL u64 values and all boolean options, grease on/off with fastrand::u64 stubbed to ANY value in range: the conversion refuses exactly the unrepresentable configurations (>= 2^62) and otherwise the bytes written at the start of the control stream are 00 04 len + each configured (id,value) exactly once, no HTTP/2-reserved id, at most one extra id of the reserved form, <= 64 bytes; Settings::decode on EVERY payload of 0..3 bytes (quick) / 0..5 bytes (thorough) agrees with an RFC 9114 section 7.2.4 reference (reserved id, repeated id, truncated entry, unknown ids ignored, kept entries exact); received settings are applied exactly with protocol defaults for absent ids.",
+   note="The asynchronous set-up sequence itself (exactly one SETTINGS frame, first) is one call site and is not solver-checked. Stubs: fastrand::u64. " + K_TRUST, ref="DESIGN.md §5 C13"),
+ "C14": dict(engine="K", technique=K_TECH,
+   text="Every byte h3 frames passes through the Encode impls and impl Buf for WriteBuf: DATA header for EVERY payload length < 2^62, GOAWAY/CANCEL_PUSH/MAX_PUSH_ID for every id, grease frame/setting/stream-type identifiers for EVERY value the RNG can return (0x1f*N+0x21, < 2^62, never a defined or HTTP/2-reserved id), stream-type prefixes, SETTINGS (C13), WebTransport headers (C19); WriteBuf under arbitrary partial consumption (up to 4 advance calls with symbolic amounts) yields exactly header ++ payload with chunk() never empty while bytes remain.",
+   note="Which frames an API program sends and in which order (SETTINGS first, only allowed frames per stream) is the async layer and is not covered here. Payload lengths 0..3 quick / 0..8 thorough for the WriteBuf drains. Stubs: fastrand::u64. " + K_TRUST, ref="DESIGN.md §5 C14"),
+ "C15": dict(engine="K", technique=K_TECH,
+   text="Prefixed integers in full: round trip and exact RFC bytes for every value < 2^62, every prefix size 1..8 and all flag bits; decode(encode(v)) is Ok(v) or Overflow for EVERY u64; decode of every byte string of 0..12 bytes equals a 128-bit reference or is refused. Huffman decoding of every 0..1-byte string (quick) and every 2-byte string (thorough) against an independent bit-serial RFC 7541 decoder (table from two sources that are not h3); h3's Huffman encode table equals Appendix B for all 256 symbols.",
+   note="Known finding (see known_findings.json): all-ones padding of 8 bits or more is accepted. Not covered: the Huffman encoder as an algorithm (39 GB at one symbolic byte), 3-byte and longer Huffman inputs, string literals longer than the shapes of C11. " + K_TRUST, ref="DESIGN.md §5 C15"),
+ "C20": dict(engine="K", technique=K_TECH,
+   text="Reduced to the arithmetic core: vas.rs add/drop/relative/relative_base/post_base/index/evicted as one-step inductive checks from ANY state satisfying the representation invariant and ANY index (positions equal RFC 9204 absolute index minus dropped; present entries exactly); HeaderPrefix new->encode->decode->get round trip for every capacity 32..256 (quick) / 4096 (thorough), every encoder/decoder insert-count pair within the section 4.5.1.1 window and every base; get(0,0) on arbitrary input.",
+   note="NOT claimed: the sentence about agreement over histories, capacity and eviction of referenced entries (DynamicTable uses HashMap/BTreeMap/VecDeque, which CBMC cannot execute). " + K_TRUST, ref="DESIGN.md §5 C20"),
+ "C05": dict(engine="M", technique=M_TECH,
+   text="Symbolic execution (mirsym, z3) of the MIR of poll_connection_error, handle_connection_error, close_if_needed, convert_to_connection_error, close_connection, ConnectionState::{get,set}_conn_error(_and_wake), CloseStream::handle_connection_error_on_stream / handle_quic_stream_error, composed under a SYMBOLIC SCHEDULE (one integer position per shared-state operation, program order only): one driver making 2 (quick) / 3 (thorough) calls, each either poll_connection_error or handle_connection_error with an arbitrary error, against 1..2 (quick) / 1..3 (thorough) stream tasks each raising an arbitrary h3 or transport connection error. Decided per path combination by z3: no lost wake-up, every reported error is the conversion of the first stored one, close at most once / only by the driver / only for locally detected errors / with the first error's code.",
+   note="Contracts (trusted): OnceLock as a write-once cell, futures' AtomicWaker as one slot whose wake() takes and wakes the registered waker, C::close records its code, Clone identity, the two From impls into ErrorOrigin. Granularity: one step per shared-state primitive call, in MIR order. The MIR is regenerated from /repo on every run (nightly -Zunpretty=mir); an unmodelled callee or MIR construct makes the check inconclusive. Counterexamples are replayed natively (/verif/replay, scripted mock transport, pre-emption hooks) before they are reported. Later API calls on request handles other than the raising call are not modelled.", ref="DESIGN.md §5 C05"),
  # --- more checks are appended above this line ---
 }
 
 NA = {
+ "C01": "not applicable to solver-based checking of the real code: the property is the end-to-end composition client API -> http types -> QPACK encoder (Huffman) -> framing -> transport fragmentation -> incremental decode -> QPACK decoder -> http types -> server API under all task interleavings; the Huffman encoder (39 GB at one symbolic byte), http::HeaderMap/Uri (25 min timeout on a 2-byte name), BufList<Bytes> (does not finish on concrete data) and async tasks cannot be encoded together within any bound that still contains a message. Its encodable pieces are decided under C02, C10, C11, C14, C15.",
+ "C17": "not applicable: every clause is about quinn::{SendStream,RecvStream,Connection} objects, which only exist inside a live connection (TLS handshake with ring assembly, tokio tasks, UDP socket); none of that can be executed symbolically and Kani stubs cannot fabricate the objects.",
 }
 PLANNED = "check not built yet (work in progress; planned scope in DESIGN.md)"
 
